@@ -52,12 +52,12 @@ theorem DoReach.jump {code : Code} {σ : Vm} {s : St} {a t : Nat} {p : Pos}
 statement), truth falls through, falsity lands on `t` -/
 theorem DoReach.cond {code : Code} {σ : Vm} {s : St} {a : Nat} (h : DoReach code σ s a) (c : Ast.Expr) (t : Nat) (p : Pos)
     (hc : CodeAt code a (compileExpr c ++ [(CInstr.jumpIfFalse t, p)]))
-    (hs : SlotsBelow s.env.length c) (hn : NumericCond c) :
+    (hs : SlotsBelow s.env.length c) (hn : NumericAt s.env c) :
     (∀ o, evalCond s.env c = .error o → ∀ (n off : Nat) (s0 : St), StmtSpec code n off σ s0 (s, o)) ∧
     (evalCond s.env c = .ok true → DoReach code σ s (a + (compileExpr c).length + 1)) ∧
     (evalCond s.env c = .ok false → DoReach code σ s t) := by
   obtain ⟨τ, st, hp, hr, hss⟩ := h
-  have hcond := cond_correct code c t p a τ hc hp (by rw [hr.env]; exact hs) hn
+  have hcond := cond_correct code c t p a τ hc hp (by rw [hr.env]; exact hs) (by rw [hr.env]; exact hn)
   rw [hr.env] at hcond
   have hrel : ∀ pc v b, Rel s (afterExpr τ pc v b) := fun pc v b =>
     rel_of _ _ hr.env hr.out hr.skip hr.data hr.dataIdx hr.queue
@@ -187,7 +187,7 @@ theorem case_do (code : Code) (fuel : Nat) (ih : StmtIHle code fuel) (htp : Exec
         have := hc.append_right.tail.head
         simp only [List.length_append, List.length_singleton, len_stmt] at this
         rw [← this]; congr 1; omega
-      obtain ⟨cerr, ctrue, cfalse⟩ := (h0.label hlab).cond c _ p hcc (by rw [hty.len]; exact hsc) hnc
+      obtain ⟨cerr, ctrue, cfalse⟩ := (h0.label hlab).cond c _ p hcc (by rw [hty.len]; exact hsc) (hnc _ hty)
       simp only [desugar, exec, ↓reduceIte]
       cases hec : evalCond s.env c with
       | error o => exact cerr o hec _ _ _
@@ -256,7 +256,7 @@ theorem case_do (code : Code) (fuel : Nat) (ih : StmtIHle code fuel) (htp : Exec
         have := hc.append_right.tail.head
         simp only [List.length_append, List.length_singleton, List.length_cons, List.length_nil, len_stmt] at this
         rw [← this]; congr 1; omega
-      obtain ⟨cerr, ctrue, cfalse⟩ := (h0.label hlab).cond c _ p hcc (by rw [hty.len]; exact hsc) hnc
+      obtain ⟨cerr, ctrue, cfalse⟩ := (h0.label hlab).cond c _ p hcc (by rw [hty.len]; exact hsc) (hnc _ hty)
       simp only [desugar, exec, ↓reduceIte]
       cases hec : evalCond s.env c with
       | error o => exact cerr o hec _ _ _
@@ -338,7 +338,7 @@ theorem case_do (code : Code) (fuel : Nat) (ih : StmtIHle code fuel) (htp : Exec
           have := hc.append_right.head
           simp only [List.length_append, List.length_singleton, List.length_cons, List.length_nil, len_stmt] at this
           rw [← this]; congr 1; omega
-        obtain ⟨cerr, ctrue, cfalse⟩ := hre.cond c _ p (do_codeAt_snoc hce hj0) (by rw [hty1.len]; exact hsc) hnc
+        obtain ⟨cerr, ctrue, cfalse⟩ := hre.cond c _ p (do_codeAt_snoc hce hj0) (by rw [hty1.len]; exact hsc) (hnc _ hty1)
         cases hec : evalCond s1.env c with
         | error o => exact cerr o hec _ _ _
         | ok bv =>
@@ -366,7 +366,7 @@ theorem case_do (code : Code) (fuel : Nat) (ih : StmtIHle code fuel) (htp : Exec
           have := hc.append_right.head
           simp only [List.length_append, List.length_singleton, List.length_cons, List.length_nil, len_stmt] at this
           rw [← this]; congr 1; omega
-        obtain ⟨cerr, ctrue, cfalse⟩ := hre.cond c _ p (do_codeAt_snoc hce hj0) (by rw [hty1.len]; exact hsc) hnc
+        obtain ⟨cerr, ctrue, cfalse⟩ := hre.cond c _ p (do_codeAt_snoc hce hj0) (by rw [hty1.len]; exact hsc) (hnc _ hty1)
         cases hec : evalCond s1.env c with
         | error o => exact cerr o hec _ _ _
         | ok bv =>
